@@ -590,6 +590,9 @@ pub struct World {
     pub cfg: Arc<WorldCfg>,
     pub dead: bool,
     pub steps: usize,
+    /// every operation applied to this world so far (for the hang watchdog); `trace_base` = length of the prelude
+    pub trace: Vec<Op>,
+    pub trace_base: usize,
 }
 
 pub struct Step {
@@ -629,12 +632,14 @@ impl World {
             cfg,
             dead: false,
             steps: 0,
+            trace: Vec::new(),
+            trace_base: 0,
         }
     }
 
     pub fn fingerprint(&self) -> crate::util::Fp {
         let mut h = FpHasher::new();
-        h.str(&format!("{:?}", self.vm));
+        h.str(&crate::util::debug_string(&self.vm));
         self.disk.0.borrow().img.hash_into(&mut h);
         self.m.hash_into(&mut h);
         // slot table occupancy (handle values are in the Debug string)
@@ -701,6 +706,8 @@ impl World {
             };
         }
         self.set_clock();
+        self.trace.push(op);
+        crate::watchdog::begin(&self.trace[self.trace_base.min(self.trace.len() - 1)..]);
         let calls_before = self.disk.calls();
         let pre = if observe { Some(self.disk.image()) } else { None };
         {
@@ -710,6 +717,7 @@ impl World {
             st.horizon = calls_before.saturating_add(self.cfg.horizon);
         }
         let res = self.exec(op);
+        crate::watchdog::end();
         self.disk.set_horizon(u64::MAX);
         if matches!(res, Res::Panic(_)) {
             self.dead = true;
